@@ -1,4 +1,125 @@
-import MV.Model.ActorSys
+import MV.Lemmas.ActorSysTurns
+import MV.Spec.ActorSys
+/-!
+# C03 — every actor incarnation sees a well-formed lifecycle
+
+Model: `MV.Model.ActorSys` (Layer 2; tied to the real actor system by the `actorsys` correspondence
+suite: the same scenarios run on the real `vivid.ActorSystem` under the serialising scheduler, one
+message per step, compared line by line). User code (`BehDef` rule tables), supervision strategies,
+actor trees and operation sequences are arbitrary: the theorems quantify over every `World` and every
+operation.
+
+Proved here (kernel-checked, via `Std.Do` Hoare triples for every function of the model):
+
+* handler invocations are only ever recorded by the mailbox step of the actor itself
+  (`C03_handled_only_in_own_turn`);
+* **an actor whose status is `terminated` handles nothing at all** — whatever is still queued or sent
+  to it, whoever runs (`C03_terminated_handles_nothing`);
+* a system-message step shows the handler lifecycle observations only, never a user message; user
+  messages are handed to the handler only while the actor is alive or restarting, not suspended, and
+  its system queue is empty (`C03_user_message_only_when_alive_and_idle_system_queue`);
+* the Bool specification `Spec.ActorSys.c03` (which judges the event record of the REAL system on
+  every run) means what the property says (`C03_spec_*`).
+
+Not proved as a theorem (full statement "the first message handled is OnLaunch, preceded only by
+OnRestarted"): it is FALSE of the code for restarted incarnations — see `MV.Findings.C03` for the
+witness; the judge reports it as the known finding C03-queued-system-message-before-launch-after-restart.
+-/
 namespace MV.Props.C03
-theorem C03_placeholder : True := trivial
+open MV.Model.ActorSys MV.Spec.ActorSys
+
+/-- the events one operation adds -/
+theorem C03_events_extend (w : World) (op : Op) : ∃ es, (step w op).events = w.events ++ es := by
+  obtain ⟨es, h, _⟩ := step_evok w op
+  exact ⟨es, h⟩
+
+/-- a handler invocation is recorded only by the mailbox step of that very actor -/
+theorem C03_handled_only_in_own_turn (w : World) (op : Op) (es : List Event)
+    (h : (step w op).events = w.events ++ es) (a : Aid) (i : Nat) (o : Obs) (s : Option Aid)
+    (he : Event.handled a i o s ∈ es) : op = .run a := by
+  obtain ⟨es', h', hall⟩ := step_evok w op
+  have : es = es' := List.append_cancel_left (h.symm.trans h')
+  subst this
+  have hr := hall _ he
+  cases op with
+  | run b => simp [stepR, Rh] at hr; rw [hr.1]
+  | _ => simp [stepR, Rh] at hr
+
+/-- **nothing at all is handled by an actor after its own termination**: in a world where `a` is
+terminated, no operation records a handler invocation of `a` -/
+theorem C03_terminated_handles_nothing (w : World) (a : Aid) (hterm : (actorOf w a).status = .terminated)
+    (op : Op) (es : List Event) (h : (step w op).events = w.events ++ es)
+    (i : Nat) (o : Obs) (s : Option Aid) : Event.handled a i o s ∉ es := by
+  intro he
+  obtain ⟨es', h', hall⟩ := step_evok w op
+  have : es = es' := List.append_cancel_left (h.symm.trans h')
+  subst this
+  have hr := hall _ he
+  cases op with
+  | run b =>
+    simp [stepR, Rh] at hr
+    obtain ⟨hab, hobs⟩ := hr
+    subst hab
+    exact hobs.1 hterm
+  | _ => simp [stepR, Rh] at hr
+
+/-- a user message (or a dead-letter event) reaches the handler only in a step of an actor that is
+alive or restarting, whose mailbox is not suspended and whose system queue is empty: system messages
+go first, and no user message is handled once termination has begun -/
+theorem C03_user_message_only_when_alive_and_idle_system_queue (w : World) (op : Op) (es : List Event)
+    (h : (step w op).events = w.events ++ es) (a : Aid) (i tag : Nat) (s : Option Aid)
+    (he : Event.handled a i (.user tag) s ∈ es) :
+    (actorOf w a).sysQ = [] ∧ (actorOf w a).suspended = false ∧
+      (actorOf w a).status.rank < Status.terminating.rank := by
+  obtain ⟨es', h', hall⟩ := step_evok w op
+  have : es = es' := List.append_cancel_left (h.symm.trans h')
+  subst this
+  have hr := hall _ he
+  cases op with
+  | run b =>
+    simp [stepR, Rh] at hr
+    obtain ⟨hab, hobs⟩ := hr
+    subst hab
+    rcases hobs.2 with hs | hs
+    · exact absurd hs (by simp [sysObs])
+    · exact hs
+  | _ => simp [stepR, Rh] at hr
+
+/-! ## the specification checker means what the property says -/
+
+/-- if the lifecycle automaton accepts an observation sequence, nothing follows the incarnation's own
+`OnTerminated` (phase 5 is final: every continuation is rejected) -/
+theorem C03_spec_nothing_after_own_terminated (self : Aid) (inc : Nat) (o : Obs) :
+    ∃ e, lcStep self inc 5 o = .error e := by
+  cases o <;> simp [lcStep]
+
+/-- the automaton only accepts `OnLaunch` (after `OnRestarted` for a restarted incarnation) as the
+first observation -/
+theorem C03_spec_first_is_launch (self : Aid) (inc : Nat) (o : Obs) (p : Nat)
+    (h : lcStep self inc 0 o = .ok p) :
+    (inc = 0 ∧ o = .launch ∧ p = 2) ∨ (inc ≠ 0 ∧ o = .restarted ∧ p = 1) := by
+  cases o <;> simp [lcStep] at h <;> (try split at h) <;> simp_all
+
+/-- … and after `OnRestarted` only `OnLaunch` -/
+theorem C03_spec_restarted_then_launch (self : Aid) (inc : Nat) (o : Obs) (p : Nat)
+    (h : lcStep self inc 1 o = .ok p) : o = .launch ∧ p = 2 := by
+  cases o <;> simp [lcStep] at h <;> simp_all
+
+/-- the own `OnTerminated` is accepted only after `OnTerminate` (phase 4) -/
+theorem C03_spec_terminate_before_terminated (self : Aid) (inc : Nat) (p q : Nat)
+    (h : lcStep self inc p (.terminated self) = .ok q) : p = 4 ∧ q = 5 := by
+  unfold lcStep at h
+  split at h <;> simp_all
+
+/-- no user message is accepted between `OnRestarting` and the end of the old instance, nor after
+`OnTerminate` -/
+theorem C03_spec_no_user_message_during_restart_or_termination (self : Aid) (inc tag : Nat) (p : Nat)
+    (hp : p = 3 ∨ p = 4 ∨ p = 5) : ∃ e, lcStep self inc p (.user tag) = .error e := by
+  rcases hp with h | h | h <;> subst h <;> simp [lcStep]
+
+/-- non-vacuity: a complete restart as the property describes it is accepted for both instances -/
+example : lcRun 7 0 0 [.launch, .user 1, .restarting, .terminate, .terminated 7] = .ok 5 ∧
+          lcRun 7 1 0 [.restarted, .launch, .user 2] = .ok 2 := by
+  constructor <;> rfl
+
 end MV.Props.C03
